@@ -126,6 +126,65 @@ CHECKS = {
         note=TB + 'One open finding (trim-mutable-default) in known_findings.json.',
         technique='Lean 4 model (materialize on ArgStore) + metamorphic build-equivalence oracle',
         ref='§4 C20'),
+    'C09': dict(
+        text='Lean theorems: the bytes codec round-trips every byte string; every symbol resolved while loading '
+             'ANY document was approved by allows_import and allows_value, a denied reference raises. Both models '
+             'are run against the real traverser / import_symbol on generated inputs; the oracle checks the full '
+             'round trip (types, leaves, callables, tags, sharing), stability of the second dump, strict JSON, no '
+             'invocation, policy consulted, tampered documents.',
+        note=TB + 'json.dumps / json.loads are trusted (Doc = identity). One open finding (NaN / Infinity tokens).',
+        technique='Lean 4 proof (codec round trip, policy gate) + differential correspondence + round-trip oracle',
+        ref='§4 C09'),
+    'C10': dict(
+        text='Decided on the real code: for generated (old, new) pairs build_diff must succeed, apply to a copy of '
+             'old, make it canonically equal to new (values, tags, sharing), leave diff and new untouched, share '
+             'nothing with new, and be empty for a deep copy. The Lean side carries the table obligation on the '
+             'operation order of _apply_changes.',
+        note=TB + 'Alignment heuristics and apply_diff are not modelled in Lean yet (status table in DESIGN.md); two '
+             'open findings (positional arguments, aligned tuples).',
+        technique='Lean 4 table obligation + round-trip oracle on generated pairs',
+        ref='§4 C10'),
+    'C11': dict(
+        text='Generated programs in the supported subset are written to temporary modules, decorated, and three '
+             'results are compared by canonical form: the undecorated function, the decorated function called '
+             'directly, fdl.build(fn.as_buildable(*args)); plus the invocation log during as_buildable and identity '
+             'disjointness of two builds.',
+        note=TB + 'The two-interpreter Lean model of DESIGN.md is not built yet; the check is oracle-based (Python '
+             'semantics of the undecorated function is the reference).',
+        technique='program generation + three-way differential oracle (Lean model pending)',
+        ref='§4 C11'),
+    'C12': dict(
+        text='Each module emitted by new_codegen / auto_config_codegen (sub-fixture subsets, complexity thresholds, '
+             'history) is imported as a real module, its fixture evaluated and compared with the input by canonical '
+             'form; value -> expression conversion is evaluated and compared incl. type.',
+        note=TB + 'The pass pipeline is not modelled; each emitted program is validated against its own input. Four '
+             'open findings in known_findings.json.',
+        technique='translation validation of every emitted program (Lean model of the generator pending)',
+        ref='§4 C12', category='translation_validation'),
+    'C13': dict(
+        text='The fiddler emitted for every generated diff (four modes) is compiled, executed on a deep copy of old '
+             'and compared with apply_diff by canonical form; hand-assembled diffs cover references among new '
+             'shared values and into moved / replaced parts of old.',
+        note=TB + 'One open finding (tags on value-less arguments of new values).',
+        technique='translation validation of every emitted fiddler (Lean model pending)',
+        ref='§4 C13', category='translation_validation'),
+    'C18': dict(
+        text='Lean model of the FiddleFlag directive queue with theorems: draining applies exactly the queued '
+             'directives in order, split parse()/value sequences equal one parse of the concatenation, value = fold '
+             'over the command line, first directive must be a base config. Correspondence of the application log '
+             'on a real FiddleFlag; oracle for flattened printers (independent leaf enumeration, every printed path '
+             'resolves, write-back sets exactly that leaf), config_str round trip, CallExpression.parse.',
+        note=TB + 'The path grammar itself is tied by the oracle (print -> parse -> resolve), not proved.',
+        technique='Lean 4 proof (queue fold law) + differential correspondence + print/parse/write-back oracle',
+        ref='§4 C18'),
+    'C19': dict(
+        text='2-3 real threads under a deterministic sys.settrace scheduler switching at source lines inside '
+             'fiddle/_src: systematic single pre-emption at every k-th line, triple windows, seeded random '
+             'schedules; each thread must observe what it observes alone; sequence ids unique. Lean: table '
+             'obligation that the build guard and tracking switch are threading.local.',
+        note=TB + 'Sub-line atomicity is trusted. The schedule-quantified Lean theorem is listed in DESIGN.md status.',
+        technique='deterministic schedule enumeration on the real code + Lean 4 table obligation',
+        ref='§4 C19'),
 }
 
 NOT_YET = {}
